@@ -83,7 +83,12 @@ def run_selftest(pid, repo):
     ms = mutest.load(pid, None)
     for m in ms:
         m['props'] = [pid]
-    res = mutest.run(ms, verbose=False) if ms else []
+    # the battery is embarrassingly parallel (one scratch copy and target directory per worker)
+    jobs = max(1, min(14, (os.cpu_count() or 2) - 2, len(ms)))
+    if ms and jobs > 1:
+        res = mutest.run_parallel(ms, jobs, verbose=False)
+    else:
+        res = mutest.run(ms, verbose=False) if ms else []
     summary = {'mutants': len(res), 'detected_or_silent_as_expected': len([r for r in res if r[1] == 'OK']),
                'not_applicable_to_this_tree': len([r for r in res if r[1] == 'SKIP']),
                'failed': [{'name': r[0], 'status': r[1], 'note': r[2][:200]} for r in res if r[1] not in ('OK', 'SKIP')]}
@@ -95,6 +100,12 @@ def run_selftest(pid, repo):
         for meta_p in sorted(glob.glob(os.path.join(VERIF, 'seeded', '*', 'meta.json'))):
             meta = json.load(open(meta_p))
             if pid not in meta.get('detected_by', []):
+                continue
+            if any(m.get('patch', '').endswith('seeded/%s/patch.diff' % meta['name']) for m in ms):
+                # already replayed above as an entry of mutants/seeds.json
+                st_ = [r for r in res if r[0] == meta['name'] + '-replay']
+                seeds.append({'seed': meta['name'], 'status': 'DETECTED' if st_ and st_[0][1] == 'OK' else
+                              (st_[0][1] if st_ else 'NOT-RUN')})
                 continue
             sh('rsync -a --delete --exclude target --exclude .git %s/ %s/' % (repo, scratch))
             patch = os.path.join(os.path.dirname(meta_p), 'patch.diff')
